@@ -32,7 +32,8 @@ ASSUMPTIONS = [
 ]
 REPORT_COUNTERS = ["calls", "calls_passed_generic", "calls_passed_nested", "calls_any", "calls_passed_generic_with_any_argument", "refinement_pair_programs", "two_type_methods_applicable",
                    "unique_best_checked", "pos_subtler", "pos_plain_type", "strict_first_posonly", "strict_first_names", "resolve_checked",
-                   "calls_repeated_through_recurse", "batches_sibling_built_first", "batches_sibling_built_last"]
+                   "calls_repeated_through_recurse", "batches_sibling_built_first", "batches_sibling_built_last",
+                   "late_abc_registration_checked"]
 
 
 def plan(tier):
@@ -326,7 +327,47 @@ def check_case(spec, res):
             else:
                 res.skip_unspec()
     _batch(spec, res, env, vf, o, ns, files, ran_plain)
+    _late_abc(spec, res, env, vf, files)
     forget(files)
+
+
+def _late_abc(spec, res, env, vf, files):
+    """History: a class is passed to a function, *then* registered as a virtual subclass of an abstract class; a
+    function built (or rebuilt) afterwards must treat it as the subclass it now is - an answer given before the
+    registration, to another function, must not live on anywhere."""
+    Shape = env.cls("Shape")
+    cands = [env.cls(s["name"]) for s in spec["hier"] if not issubclass(env.cls(s["name"]), Shape)]
+    if not cands:
+        return
+    K = cands[0]
+
+    def build(tag):
+        o2 = Ovld()
+        for mid, t in ((1, ["Ty", "Shape"]), (0, ["Ty", "object"])):
+            fn, f = make_method({"mid": mid, "pos": [{"n": "a", "t": t}]}, env, vf, [f"return {mid}"], tag="c14l")
+            o2.register(fn)
+            files.append(f)
+        return o2
+    before = build("a")
+    out = outcome(lambda: before(K), vf)
+    if out[0] != "ran" or out[2] != 0:
+        res.violation("not-most-specific", ["late-abc", "before"], spec, observed={"call": "class not yet registered", "outcome": [str(x) for x in out[:3]]},
+                      acceptable="the type[object] method")
+        return
+    Shape.register(K)
+    fresh = build("b")
+    fn, f = make_method({"mid": 2, "pos": [{"n": "a", "t": "str"}]}, env, vf, ["return 2"], tag="c14l")
+    files.append(f)
+    before.register(fn)        # the first function is rebuilt by a later registration
+    for label, fnc in (("fresh function", fresh), ("rebuilt function", before)):
+        res.ev()
+        res.count("late_abc_registration_checked")
+        out = outcome(lambda: fnc(K), vf)
+        if out[0] != "ran" or out[2] != 1:
+            res.violation("not-most-specific", ["late-abc", label], spec,
+                          observed={"call": f"class registered with the ABC after it had been passed once; {label}",
+                                    "outcome": [str(x) for x in out[:3]]},
+                          acceptable="the type[Shape] method")
 
 
 def _batch(spec, res, env, vf, o, ns, files, ran_plain):
